@@ -230,8 +230,34 @@ def run_par(desc, c, e, add, rng):
         fin = ~np.isnan(u_ref)
         add("parallel-selection-differs-from-inner", "%s vs %s (unique best: %s); utilities wrapper %r inner %r" % (
             np.asarray(out[0]).tolist(), np.asarray(ref[0]).tolist(), _unique_best(u_ref), u_out[fin].tolist(), u_ref[fin].tolist()))
+    # ---- the same wrapper object after a nested parameter of the wrapped strategy was changed through set_params
+    US_METHODS = ["least_confident", "margin_sampling", "entropy"]
+    inner0 = e.make(seed)
+    if type(inner0).__name__ == "UncertaintySampling" and inner0.get_params().get("method") in US_METHODS \
+            and inner0.get_params().get("cost_matrix") is None:      # (entropy is not defined with a cost matrix)
+        other = [m for m in US_METHODS if m != inner0.get_params()["method"]][int(desc["seed"] % 2)]
+        try:
+            qs2 = P.ParallelUtilityEstimationWrapper(e.make(seed), n_jobs=nj, parallel_dict=dict(pd), random_state=seed)
+            call(qs2)
+            qs2.set_params(query_strategy__method=other)
+            got = call(qs2)
+            want = call(e.make(seed).set_params(method=other))
+            contracts.count("C20.parallel-twin-oracle")
+            if not _close(np.asarray(want[1], float)[0], np.asarray(got[1], float)[0], 1e-7):
+                add("parallel-wrapper-ignores-changed-inner-parameter", "after set_params(query_strategy__method=%r) the wrapper's utilities "
+                    "differ from those of the wrapped strategy with that method" % other)
+        except steps.StepBudgetExceeded:
+            raise
+        except Exception as ex:
+            if not (desc["backend"] != "threading" and type(ex).__name__ in ("BrokenProcessPool", "TerminatedWorkerError", "PicklingError")):
+                add("wrapper-raises-after-set_params:%s" % type(ex).__name__, str(ex)[:150])
     chunks = 0
     # the jobs work on copies of the strategy, so the chunk calls are observed through the class-level query contract
+    ct.drain()
+    try:
+        wrapped_call(None)
+    except Exception:
+        pass
     inner_recs = [r for r in ct.drain() if r["cls"] == e.cls.__name__ and "n_cand" in r]
     if desc["backend"] == "threading" and nj != 1:
         chunks = len(inner_recs)
@@ -425,17 +451,25 @@ def run_saw(desc, c, e, add, rng):
     bs = int([1, 2, 3, 5, n_pairs][rng.randint(5)])
     nps = int(rng.randint(1, 4))
     kw = dict(e.kwargs(c.ctx), X=c.X.copy(), y=Y.copy(), batch_size=bs, n_annotators_per_sample=nps, return_utilities=True)
+    cand_idx = None
+    if (desc["seed"] >> 15) % 2:
+        # candidates as an index array in arbitrary order (every annotator of a candidate sample is then available)
+        pool_idx = np.flatnonzero(~c.lab)
+        if len(pool_idx):
+            cand_idx = rng.permutation(pool_idx)[: int(rng.randint(1, len(pool_idx) + 1))]
+            kw["candidates"] = cand_idx.copy()
     # annotator performances only rank the annotators of a sample; whatever their scale (incl. exact 0 / 1 entries of a
     # binary expertise matrix) they must not reorder the samples
     aperf = [None, "vec", "mat", "binary", "binary", "wide", "uint8"][rng.randint(7)]
+    n_rows_perf = c.n if cand_idx is None else len(cand_idx)      # per-candidate performances: one row per candidate
     if aperf == "vec":
         kw["A_perf"] = np.round(rng.rand(A), 2)
     elif aperf == "mat":
-        kw["A_perf"] = np.round(rng.rand(c.n, A) * rng.choice([1.0, 10.0]), 2)
+        kw["A_perf"] = np.round(rng.rand(n_rows_perf, A) * rng.choice([1.0, 10.0]), 2)
     elif aperf == "binary":
-        kw["A_perf"] = (rng.rand(c.n, A) < 0.5).astype(float)
+        kw["A_perf"] = (rng.rand(n_rows_perf, A) < 0.5).astype(float)
     elif aperf == "wide":
-        kw["A_perf"] = np.round(rng.rand(c.n, A) * 1e6)
+        kw["A_perf"] = np.round(rng.rand(n_rows_perf, A) * 1e6)
         kw["A_perf"].flat[0], kw["A_perf"].flat[-1] = 0.0, 1e6
     elif aperf == "uint8":
         kw["A_perf"] = rng.randint(0, 256, size=A).astype(np.uint8)
@@ -461,6 +495,9 @@ def run_saw(desc, c, e, add, rng):
             order.append(s)
     # samples without any available annotator cannot appear in pairs: they are skipped in the inner sequence (see C07 / G24)
     avail = np.isnan(Y)
+    if cand_idx is not None:
+        avail = np.zeros(Y.shape, bool)
+        avail[cand_idx] = True
     seq = [s for s in inner_seq if avail[s].any()]
     if order != seq[:len(order)]:
         add("samples-not-in-the-inner-strategy's-order", "pairs %s -> samples %s, inner strategy returned %s (A_perf: %s)" % (pairs, order, inner_seq, aperf))
